@@ -1772,6 +1772,9 @@ class _Function:
 
 autograd = _ns("autograd", Function=_Function)
 
+# sparse COO / CSR matrices (the API subset of emu_sv/sparse_operator.py): see _sparse.py
+from ._sparse import layout, strided, sparse_coo, sparse_csr, sparse_coo_tensor, SparseTensor as _SparseTensor  # noqa: E402,F401
+
 
 def __getattr__(name):
     if name.startswith("__") and name.endswith("__"):
